@@ -4,6 +4,7 @@ import (
 	"bufio"
 	"bytes"
 	"fmt"
+	"hash/maphash"
 	"math"
 	"net"
 	"os"
@@ -189,6 +190,7 @@ type liveNode struct {
 	rc       *rconn
 	port     int
 	lastReps []reply
+	cached   *dumpT // engine content after the last command (only the harness changes the store)
 }
 
 // freeBase returns the first base b >= port (step 3, inside 34000..34999) whose three ports can be
@@ -231,14 +233,16 @@ func startNode(port int, engine, policy string, v2 bool) (*liveNode, error) {
 
 type dumpT struct {
 	keys [][]byte
-	vals [][]byte
+	vals []uint64 // hash of the value (values of the length sweep are megabytes)
 }
+
+var dumpSeed = maphash.MakeSeed()
 
 func dumpStore(db *rockredis.RockDB) dumpT {
 	var d dumpT
 	db.VerifScanAll(func(k, v []byte) {
 		d.keys = append(d.keys, append([]byte{}, k...))
-		d.vals = append(d.vals, append([]byte{}, v...))
+		d.vals = append(d.vals, maphash.Bytes(dumpSeed, v))
 	})
 	return d
 }
@@ -258,7 +262,7 @@ func diffDump(a, b dumpT) [][]byte {
 		default:
 			c := bytes.Compare(a.keys[i], b.keys[j])
 			if c == 0 {
-				if !bytes.Equal(a.vals[i], b.vals[j]) {
+				if a.vals[i] != b.vals[j] {
 					out = append(out, a.keys[i])
 				}
 				i++
@@ -391,7 +395,11 @@ type nodeObs struct {
 
 // send runs one vector on the live node and classifies what happened.
 func (ln *liveNode) send(args [][]byte) (obs nodeObs, before, after dumpT) {
-	before = dumpStore(ln.st.RockDB)
+	if ln.cached != nil {
+		before = *ln.cached
+	} else {
+		before = dumpStore(ln.st.RockDB)
+	}
 	idx0 := ln.nd.GetAppliedIndex()
 	reps, closed, err := ln.rc.do(args, 2*time.Second)
 	if closed || err != nil {
@@ -407,6 +415,7 @@ func (ln *liveNode) send(args [][]byte) (obs nodeObs, before, after dumpT) {
 	idx1 := ln.nd.GetAppliedIndex()
 	ln.lastReps = reps
 	after = dumpStore(ln.st.RockDB)
+	ln.cached = &after
 	obs.nrep = len(reps)
 	obs.reps = reps
 	obs.changed = len(diffDump(before, after))
